@@ -88,7 +88,10 @@ type recIO struct{ last uint8 }
 func (r *recIO) In(a uint8) uint8 { return a ^ r.last }
 func (r *recIO) Out(a, v uint8)   { r.last = v }
 
-func build(c *totalCase) (*z80.CPU, *cntMem, *cntIO) {
+// build constructs the machine. With wrap=false the bundled types are handed to the CPU directly
+// (so that type-specific fast paths in the emulator are reached); with wrap=true they sit behind
+// counting wrappers that let the invalid-opcode rule look at the accesses.
+func build(c *totalCase, wrap bool) (*z80.CPU, *cntMem, *cntIO) {
 	var mem z80.Memory
 	put := func(a uint16, v uint8) {}
 	switch c.MemKind {
@@ -124,9 +127,14 @@ func build(c *totalCase) (*z80.CPU, *cntMem, *cntIO) {
 	for i, b := range c.Tail {
 		put(0xFFF0+uint16(i), uint8(b))
 	}
-	cm := &cntMem{inner: mem}
-	cpu := &z80.CPU{Memory: cm}
+	var cm *cntMem
+	cpu := &z80.CPU{Memory: mem}
+	if wrap {
+		cm = &cntMem{inner: mem}
+		cpu.Memory = cm
+	}
 	var cio *cntIO
+	var dev z80.IO
 	switch c.IOKind {
 	case 1:
 		n := c.IOLen
@@ -136,11 +144,16 @@ func build(c *totalCase) (*z80.CPU, *cntMem, *cntIO) {
 		if n > 300 {
 			n = 300
 		}
-		cio = &cntIO{inner: make(z80.DumbIO, n)}
-		cpu.IO = cio
+		dev = make(z80.DumbIO, n)
 	case 2:
-		cio = &cntIO{inner: &recIO{}}
-		cpu.IO = cio
+		dev = &recIO{}
+	}
+	if dev != nil {
+		cpu.IO = dev
+		if wrap {
+			cio = &cntIO{inner: dev}
+			cpu.IO = cio
+		}
 	}
 	cpu.AF.SetU16(c.AF)
 	cpu.BC.SetU16(c.BC)
@@ -173,7 +186,8 @@ func mkIntr(ev *intrEv) *z80.Interrupt {
 type totalOutcome struct {
 	msg      string
 	invalid  int  // Steps that logged "invalid code"
-	halted   bool // the program parked on a HALT within the Step bound
+	halted   bool // the program executed a HALT within the Step bound
+	ranRun   bool // ... and Run was checked on a fresh copy
 	shortAcc bool
 	intr     int
 	wrapPfx  bool
@@ -186,8 +200,16 @@ func safeStep(c *z80.CPU) (p any) {
 }
 
 func runTotal(c *totalCase) totalOutcome {
+	o := runTotalMode(c, false)
+	if o.msg != "" {
+		return o
+	}
+	return runTotalMode(c, true)
+}
+
+func runTotalMode(c *totalCase, wrap bool) totalOutcome {
 	var o totalOutcome
-	cpu, cm, cio := build(c)
+	cpu, cm, cio := build(c, wrap)
 	steps := c.Steps
 	if steps <= 0 {
 		steps = 1
@@ -205,7 +227,9 @@ func runTotal(c *totalCase) totalOutcome {
 		}
 		pending := cpu.Interrupt != nil
 		pre := cpu.States
-		cm.reads, cm.writes = cm.reads[:0], 0
+		if cm != nil {
+			cm.reads, cm.writes = cm.reads[:0], 0
+		}
 		if cio != nil {
 			cio.n = 0
 		}
@@ -225,18 +249,24 @@ func runTotal(c *totalCase) totalOutcome {
 				o.msg = fmt.Sprintf("Step %d: an opcode reported as invalid changed state other than PC and R (PC=%04x)", s+1, pre.PC)
 				return o
 			}
-			if cm.writes != 0 || (cio != nil && cio.n != 0) {
-				o.msg = fmt.Sprintf("Step %d: an opcode reported as invalid wrote memory or touched a port (PC=%04x)", s+1, pre.PC)
+			if adv < 1 || adv > 4 {
+				o.msg = fmt.Sprintf("Step %d: invalid opcode at %04x moved PC by %d", s+1, pre.PC, adv)
 				return o
 			}
-			if int(adv) != len(cm.reads) {
-				o.msg = fmt.Sprintf("Step %d: invalid opcode at %04x read %d instruction bytes but PC advanced by %d", s+1, pre.PC, len(cm.reads), adv)
-				return o
-			}
-			for i, a := range cm.reads {
-				if a != pre.PC+uint16(i) {
-					o.msg = fmt.Sprintf("Step %d: invalid opcode at %04x read address %04x", s+1, pre.PC, a)
+			if cm != nil {
+				if cm.writes != 0 || (cio != nil && cio.n != 0) {
+					o.msg = fmt.Sprintf("Step %d: an opcode reported as invalid wrote memory or touched a port (PC=%04x)", s+1, pre.PC)
 					return o
+				}
+				if int(adv) != len(cm.reads) {
+					o.msg = fmt.Sprintf("Step %d: invalid opcode at %04x read %d instruction bytes but PC advanced by %d", s+1, pre.PC, len(cm.reads), adv)
+					return o
+				}
+				for i, a := range cm.reads {
+					if a != pre.PC+uint16(i) {
+						o.msg = fmt.Sprintf("Step %d: invalid opcode at %04x read address %04x", s+1, pre.PC, a)
+						return o
+					}
 				}
 			}
 			if pre.PC > 0xFFFB && pre.PC+adv < pre.PC {
@@ -246,7 +276,8 @@ func runTotal(c *totalCase) totalOutcome {
 		if int(pre.PC) >= memLimit(c) || int(pre.SP) >= memLimit(c) {
 			o.shortAcc = true
 		}
-		if cpu.HALT && cpu.PC == pre.PC && cpu.Interrupt == nil && haltedAt < 0 {
+		if cpu.HALT && haltedAt < 0 {
+			// a HALT instruction has been executed in this Step (the field starts out false)
 			haltedAt = s + 1
 			break
 		}
@@ -254,13 +285,19 @@ func runTotal(c *totalCase) totalOutcome {
 	if haltedAt >= 0 {
 		// Run on a fresh copy must return, with the same state
 		o.halted = true
-		cpu2, _, _ := build(c)
-		sched := map[int]*intrEv{}
+		cpu2, _, _ := build(c, wrap)
+		// interrupts are injected by Step index; Run cannot do that, so Run is checked when every request is
+		// raised before the first Step (it may stay pending for ever: Run must still stop at the HALT)
+		onlyAtStart := true
 		for i := range c.Intr {
-			sched[c.Intr[i].AtStep] = &c.Intr[i]
+			if c.Intr[i].AtStep != 0 {
+				onlyAtStart = false
+			}
 		}
-		// interrupts are injected by Step index; Run cannot do that, so only schedule-free cases are run
-		if len(c.Intr) == 0 {
+		if onlyAtStart {
+			for i := range c.Intr {
+				cpu2.Interrupt = mkIntr(&c.Intr[i])
+			}
 			done := make(chan any, 1)
 			go func() {
 				defer func() { done <- recover() }()
@@ -285,6 +322,7 @@ func runTotal(c *totalCase) totalOutcome {
 				o.msg = fmt.Sprintf("Run ended in a different state than %d Steps", haltedAt)
 				return o
 			}
+			o.ranRun = true
 		}
 	}
 	return o
@@ -394,6 +432,9 @@ func decode(data []byte) totalCase {
 	for i := 0; i < ni; i++ {
 		var ev intrEv
 		ev.AtStep = int(r.u8()) % c.Steps
+		if ev.AtStep&1 == 1 {
+			ev.AtStep = 0
+		}
 		t := r.u8()
 		switch t & 7 {
 		case 0:
@@ -497,8 +538,11 @@ func account(col *stats.Collector, c *totalCase, o *totalOutcome, h uint64) {
 		col.Label("with-interrupt")
 		nt = true
 	}
-	if o.halted {
+	if o.ranRun {
 		col.Label("halts->Run-checked")
+		if o.intr > 0 {
+			col.Label("halts-with-request-raised-before-Run")
+		}
 	}
 	col.Label(fmt.Sprintf("mem-kind:%d", c.MemKind))
 	col.Label(fmt.Sprintf("io-kind:%d", c.IOKind))
